@@ -172,3 +172,12 @@ _EXTRA9C = {
 }
 for _pid, _t in _EXTRA9C.items():
     NOTES[_pid]['technique'] = NOTES[_pid]['technique'] + _t
+
+_EXTRA9D = {
+    'C05': '; size policy, timer wheel and table in one joint state: both agreements after every history of insert / replace / remove / expire / sweep steps (Proofs.CacheAll); runTask / onAccess glue (Impl.Maint) tied to the regenerated guards',
+    'C13': '; the sweep through both policies on the combined state (Proofs.CacheAll); dead nodes never scheduled (Impl.Maint)',
+    'C06': '; one OnDeletion per replayed removal (Impl.Maint)',
+    'C20': ' + an accepted automatic removal counts exactly one eviction with the entry\'s weight (Props.C07Evict)',
+}
+for _pid, _t in _EXTRA9D.items():
+    NOTES[_pid]['technique'] = NOTES[_pid]['technique'] + _t
